@@ -1109,11 +1109,10 @@ func (c *FuncCtx) evalElt(st *State, e ast.Expr, t types.Type) *Val {
 func (c *FuncCtx) alloc(st *State, t types.Type) string {
 	r := c.fresh("new_"+structName(t), "Int")
 	st.assume(app(">", r, "0"))
-	// freshness: everything reachable before the allocation is older. Modelled
-	// by a per-type allocation frontier: refs in the entry state are <= A0.
-	fr := "alloc0_" + structName(t)
-	c.declOnce(fr, "Int")
-	st.assume(app(">", r, fr))
+	// freshness: everything allocated before is older. Modelled by a per-type
+	// allocation frontier (an upper bound of every reference of the type handed
+	// out so far): a new reference lies above it and becomes the frontier.
+	st.assume(app(">", r, c.frontier(st, structName(t))))
 	var others []string
 	for _, v := range st.vars {
 		if v != nil && v.Sort == "Int" && v.T != nil {
@@ -1126,12 +1125,74 @@ func (c *FuncCtx) alloc(st *State, t types.Type) string {
 	for _, o := range others {
 		st.assume(mkNot(mkEq(r, o)))
 	}
-	if prev, ok := st.bound["$alloc_"+structName(t)]; ok {
-		st.assume(app(">", r, prev.S))
-	}
 	st.bound["$alloc_"+structName(t)] = &Val{S: r, Sort: "Int"}
 	st.allocs = append(st.allocs, r)
 	return r
+}
+
+// frontier: the current allocation frontier of a struct type - the last
+// reference allocated on this path, the loop-head / join frontier, or the
+// entry frontier alloc0_T. Nothing ever bounds a frontier from above, so any
+// upper bound of the references handed out so far is a sound choice.
+func (c *FuncCtx) frontier(st *State, sname string) string {
+	if prev, ok := st.bound["$alloc_"+sname]; ok {
+		return prev.S
+	}
+	fr := "alloc0_" + sname
+	c.declOnce(fr, "Int")
+	return fr
+}
+
+// havocFrontiers: at a loop head (an arbitrary iteration) the frontier of
+// every struct type the package allocates is an unknown value not below the
+// frontier on loop entry.
+func (c *FuncCtx) havocFrontiers(st *State) {
+	names := map[string]bool{}
+	for k := range st.bound {
+		if strings.HasPrefix(k, "$alloc_") {
+			names[strings.TrimPrefix(k, "$alloc_")] = true
+		}
+	}
+	for _, n := range c.eng.allocStructNames() {
+		names[n] = true
+	}
+	for _, n := range sortedKeys(names) {
+		prev := c.frontier(st, n)
+		f := c.fresh("frontier_"+n, "Int")
+		st.assume(app(">=", f, prev))
+		st.bound["$alloc_"+n] = &Val{S: f, Sort: "Int"}
+	}
+}
+
+// allocStructNames: the package's struct types that some function allocates
+// (composite literal or new).
+func (e *Engine) allocStructNames() []string {
+	if e.allocNames != nil {
+		return e.allocNames
+	}
+	seen := map[string]bool{}
+	for _, f := range e.pkg.Syntax {
+		ast.Inspect(f, func(n ast.Node) bool {
+			var t types.Type
+			switch x := n.(type) {
+			case *ast.CompositeLit:
+				t = e.info.TypeOf(x)
+			case *ast.CallExpr:
+				if id, ok := x.Fun.(*ast.Ident); ok && id.Name == "new" && len(x.Args) == 1 {
+					t = e.info.TypeOf(x.Args[0])
+				}
+			}
+			if t != nil && e.isHeapStruct(t) {
+				seen[structName(t)] = true
+			}
+			return true
+		})
+	}
+	e.allocNames = sortedKeys(seen)
+	if e.allocNames == nil {
+		e.allocNames = []string{}
+	}
+	return e.allocNames
 }
 
 // readFacts: type-range facts for a value just read from memory. Spec
